@@ -323,7 +323,7 @@ impl E2Part for Generics {
     }
     fn cases(&self, tier: Tier) -> usize {
         match tier {
-            Tier::Quick => 1_600,
+            Tier::Quick => 3_200,
             Tier::Thorough => 32_000,
         }
     }
@@ -423,8 +423,8 @@ impl E2Part for Borrowing {
     }
     fn cases(&self, tier: Tier) -> usize {
         match tier {
-            Tier::Quick => 64,
-            Tier::Thorough => 256,
+            Tier::Quick => 192,
+            Tier::Thorough => 768,
         }
     }
     fn mode(&self) -> Mode {
@@ -499,8 +499,8 @@ impl E2Part for WhereByCounterpart {
     }
     fn cases(&self, tier: Tier) -> usize {
         match tier {
-            Tier::Quick => 64,
-            Tier::Thorough => 256,
+            Tier::Quick => 192,
+            Tier::Thorough => 768,
         }
     }
     fn mode(&self) -> Mode {
